@@ -97,6 +97,15 @@ def fl(x):
 # ----------------------------------------------------------------------------------------
 # TLC
 # ----------------------------------------------------------------------------------------
+def parse_model_names(stdout):
+    """table ModelNames of the specification: model -> names of the enum members denoting it"""
+    for line in stdout.splitlines():
+        if line.startswith('"MODELNAMES '):
+            t = json.loads(json.loads(line)[len("MODELNAMES "):])
+            return {k: list(v) for k, v in t.items()}
+    raise core.MachineryFailure("no MODELNAMES table printed by HypCircleCases.tla")
+
+
 def tlc_cases(run, plan, parallel, workers):
     """one TLC run per dimension (run concurrently); returns {n: {family: [CASE records]}}"""
     def one(p):
@@ -116,6 +125,8 @@ def tlc_cases(run, plan, parallel, workers):
         d["run"] = "HypCircleCases_n%d" % p["n"]
         d["constants"] = {k: (sorted(v) if isinstance(v, (list, tuple, set)) else v) for k, v in p.items()}
         run.tlc_runs.append(d)
+        if "names" not in out:
+            out["names"] = parse_model_names(r.stdout)
         fams = {}
         for e in r.emits:
             fams.setdefault(e["kind"], []).append(e)
@@ -434,6 +445,225 @@ def replay_segments(run, n, cases, rng, fam):
 
 
 # ----------------------------------------------------------------------------------------
+# variants of the same cases: spellings of the model, histories with item assignment, other representatives
+# ----------------------------------------------------------------------------------------
+SCALES = (-3.0, -1.0, -0.5, 1.0 / 3, 2.0)      # spec: a unit is a projective class, Rescale(unit, c) is a stuttering step
+
+
+def spellings(H, names, model):
+    """every accepted way of naming `model` (spec table ModelNames): the enum members incl. aliases and their
+    names as strings in several letter cases"""
+    out = []
+    for nm in sorted(names[model]):
+        out.append(getattr(H.Model, nm))
+        out += [nm.lower(), nm.upper(), nm.capitalize(), nm[0].lower() + nm[1:].upper()]
+    return out
+
+
+def same_arrays(a, b):
+    a = a if isinstance(a, (tuple, list)) else (a,)
+    b = b if isinstance(b, (tuple, list)) else (b,)
+    if len(a) != len(b):
+        return False
+    for x, y in zip(a, b):
+        x, y = np.asarray(x, float), np.asarray(y, float)
+        if x.shape != y.shape or not np.array_equal(x, y, equal_nan=True):
+            return False
+    return True
+
+
+def spelling_pass(rep, H, names, label, key, obj, calls):
+    """calls: list of (name, canonical model key, function(obj, model_argument)); the result for every spelling
+    of the model must be the result for the canonical enum member"""
+    n_eval = 0
+    for cname, model, fn in calls:
+        try:
+            with np.errstate(all="ignore"):
+                ref = fn(obj, getattr(H.Model, model.upper()))
+        except Exception as ex:
+            rep("raised:%s.%s" % (label, cname), key, dict(model=model, error="%s: %s" % (type(ex).__name__, ex)))
+            continue
+        for sp in spellings(H, names, model):
+            n_eval += 1
+            try:
+                with np.errstate(all="ignore"):
+                    got = fn(obj, sp)
+                ok = same_arrays(got, ref)
+                det = dict(model_argument=repr(sp), canonical=model)
+            except Exception as ex:
+                ok, det = False, dict(model_argument=repr(sp), canonical=model, error="%s: %s" % (type(ex).__name__, ex))
+            if not ok:
+                if not isinstance(det.get("error"), str):
+                    g0 = np.asarray(got[-1] if isinstance(got, (tuple, list)) else got, float)
+                    r0 = np.asarray(ref[-1] if isinstance(ref, (tuple, list)) else ref, float)
+                    bad = np.nonzero(~np.isclose(g0, r0, equal_nan=True).reshape(len(g0), -1).all(-1))[0] if g0.shape == r0.shape and g0.ndim else []
+                    if len(bad):
+                        det.update(index=int(bad[0]), with_spelling=fl(g0[bad[0]]), with_enum_member=fl(r0[bad[0]]), differing=int(len(bad)))
+                rep("%s.%s.model_spelling" % (label, cname), "%s:model=%r" % (key, sp), det)
+    return n_eval
+
+
+def seg_arrays(cases, n):
+    A = dict(
+        P1=np.array([e["P1"] for e in cases], float), P2=np.array([e["P2"] for e in cases], float),
+        ku=np.array([qv(e["ku"]) for e in cases]), kv=np.array([qv(e["kv"]) for e in cases]),
+        k1=np.array([qv(e["k1"]) for e in cases]), k2=np.array([qv(e["k2"]) for e in cases]),
+        st=np.array([e["straight"] for e in cases]),
+        id1=np.array([nn_of(e["p1"]) == 0 for e in cases]), id2=np.array([nn_of(e["p2"]) == 0 for e in cases]),
+        pp1=np.array([poincare_surd(e["p1"]) for e in cases]), pp2=np.array([poincare_surd(e["p2"]) for e in cases]),
+        pc=np.array([qv(e["pc"]) if not e["straight"] else np.full(n, np.nan) for e in cases]),
+        pr=np.array([math.sqrt(q(e["pr2"])) if not e["straight"] else np.nan for e in cases]),
+        first=np.array([e["pfirst"] for e in cases]), gfirst=np.array([e["pgfirst"] for e in cases]),
+        hs=np.array([e["hs"] for e in cases]))
+    nanv = np.full(n, np.nan)
+    A.update(
+        hc=np.array([qv(e["hc"]) if e["hs"] else nanv for e in cases]),
+        hr=np.array([math.sqrt(q(e["hr2"])) if e["hs"] else np.nan for e in cases]),
+        hu=np.array([qv(e["hu"]) if e["hs"] else nanv for e in cases]), hv=np.array([qv(e["hv"]) if e["hs"] else nanv for e in cases]),
+        h1=np.array([half_surd(e["h1"]) if e["hs"] else nanv for e in cases]), h2=np.array([half_surd(e["h2"]) if e["hs"] else nanv for e in cases]),
+        hf=np.array([e["hfirst"] for e in cases]), hg=np.array([e["hgfirst"] for e in cases]))
+    return A
+
+
+def seg_exp(A, idx, n, model, geodesic=False):
+    """expectation of check_circle for the cases idx: the segment itself, or (geodesic) the whole geodesic through it"""
+    t = lambda a: a[idx]
+    K = len(idx)
+    if model == "poincare":
+        c, r, st = t(A["pc"]), t(A["pr"]), t(A["st"])
+        a, b, f = (t(A["ku"]), t(A["kv"]), t(A["gfirst"])) if geodesic else (t(A["pp1"]), t(A["pp2"]), t(A["first"]))
+        ia, ib = (np.ones(K, bool), np.ones(K, bool)) if geodesic else (t(A["id1"]), t(A["id2"]))
+        e1, e2 = np.where((f == 1)[:, None], a, b), np.where((f == 1)[:, None], b, a)
+        t1, t2 = np.where(np.where(f == 1, ia, ib), ITOL, TOL), np.where(np.where(f == 1, ib, ia), ITOL, TOL)
+        return dict(c=c, r=r, straight=st, e1=e1 if n == 2 else None, e2=e2, tol1=t1, tol2=t2,
+                    k1=t(A["ku"]) if geodesic else t(A["k1"]), k2=t(A["kv"]) if geodesic else t(A["k2"]), q1=a, q2=b)
+    a, b, f = (t(A["hu"]), t(A["hv"]), t(A["hg"])) if geodesic else (t(A["h1"]), t(A["h2"]), t(A["hf"]))
+    e1, e2 = np.where((f == 1)[:, None], a, b), np.where((f == 1)[:, None], b, a)
+    hscale = np.maximum(1 + (t(A["hu"]) ** 2).sum(-1), 1 + (t(A["hv"]) ** 2).sum(-1)) / 2
+    return dict(c=t(A["hc"]), r=t(A["hr"]), straight=np.zeros(K, bool), e1=e1 if n == 2 else None, e2=e2, tol1=np.full(K, ITOL), tol2=np.full(K, ITOL),
+                k1=t(A["ku"]) if geodesic else t(A["k1"]), k2=t(A["kv"]) if geodesic else t(A["k2"]), q1=a, q2=b, ctol=ITOL, scale=hscale)
+
+
+def ideal_pair_bad(got, a, b, tol):
+    e_same = np.maximum(np.abs(got[:, 0] - a).max(-1), np.abs(got[:, 1] - b).max(-1))
+    e_swap = np.maximum(np.abs(got[:, 0] - b).max(-1), np.abs(got[:, 1] - a).max(-1))
+    with np.errstate(all="ignore"):
+        return ~(np.minimum(e_same, e_swap) <= tol)
+
+
+def segment_variants(run, n, cases, rng, names):
+    """(a) every spelling of the model argument, (b) histories query -> obj[k] = other unit -> query on composite
+    Segment and Geodesic objects, (c) negative and mixed-sign homogeneous representatives"""
+    H = hyp()
+    M = H.Model
+    rep = Reporter(run, "segment")
+    A = seg_arrays(cases, n)
+    keys = [seg_key(e) for e in cases]
+    K = len(cases)
+    allidx = np.arange(K)
+    hsidx = np.nonzero(A["hs"])[0]
+
+    # ---------- (a) spellings
+    sub = hsidx[:600] if len(hsidx) else allidx[:600]
+    try:
+        seg = H.Segment(A["P1"][sub].copy(), A["P2"][sub].copy())
+        geo = seg.geodesic()
+        calls = []
+        for model in ("poincare", "halfspace"):
+            if model == "halfspace" and not len(hsidx):
+                continue
+            calls += [("circle_parameters", model, lambda o, m: o.circle_parameters(model=m, degrees=False)),
+                      ("circle_parameters_degrees", model, lambda o, m: o.circle_parameters(True, m)),
+                      ("sphere_parameters", model, lambda o, m: o.sphere_parameters(m)),
+                      ("ideal_endpoint_coords", model, lambda o, m: o.ideal_endpoint_coords(m)),
+                      ("endpoint_coords", model, lambda o, m: o.endpoint_coords(m))]
+        for model in ("klein", "projective"):
+            calls += [("ideal_endpoint_coords", model, lambda o, m: o.ideal_endpoint_coords(m)),
+                      ("endpoint_coords", model, lambda o, m: o.endpoint_coords(model=m))]
+        run.evaluations += spelling_pass(rep, H, names, "segment", "n=%d:%d segments" % (n, len(sub)), seg, calls)
+        gcalls = [c for c in calls if c[0] in ("circle_parameters", "circle_parameters_degrees", "sphere_parameters", "endpoint_coords")]
+        run.evaluations += spelling_pass(rep, H, names, "geodesic", "n=%d:%d geodesics" % (n, len(sub)), geo, gcalls)
+        run.actions["model spellings"] = run.actions.get("model spellings", 0) + 1
+    except Exception as ex:
+        rep("raised:segment.spellings", keys[0], dict(error="%s: %s" % (type(ex).__name__, ex)))
+
+    # ---------- (b) histories with item assignment
+    for cls in ("Segment", "Geodesic"):
+        pool = hsidx if len(hsidx) >= 20 else allidx
+        if cls == "Geodesic":
+            pool = pool[(A["id1"] & A["id2"])[pool]]
+        if len(pool) < 4:
+            continue
+        L = min(len(pool), 300)
+        base = pool[np.array(sorted(rng.sample(range(len(pool)), L)))]
+        src = base.copy()
+        half = bool(A["hs"][pool].all())
+        try:
+            with np.errstate(all="ignore"):
+                mk = lambda i: getattr(H, cls)(A["P1"][i].copy(), A["P2"][i].copy())
+                obj = mk(base)
+                # query (the library may derive and keep anything it likes here)
+                obj.circle_parameters(model=M.POINCARE, degrees=False)
+                obj.sphere_parameters(M.POINCARE)
+                if half:
+                    obj.circle_parameters(model=M.HALFSPACE, degrees=False)
+                    obj.sphere_parameters(M.HALFSPACE)
+                if cls == "Segment":
+                    obj.ideal_endpoint_coords(M.KLEIN)
+                # in-place item assignment of other units
+                ks = rng.sample(range(L), max(2, L // 6))
+                for k in ks:
+                    j = int(pool[rng.randrange(len(pool))])
+                    obj[k] = mk(j)
+                    src[k] = j
+                hk = ["%s%s" % (keys[j], ":assigned_at=%d(was %s)" % (i, keys[base[i]]) if base[i] != j else "") for i, j in enumerate(src)]
+                out = obj.circle_parameters(model=M.POINCARE, degrees=False)
+                outd = obj.circle_parameters(model=M.POINCARE, degrees=True)
+            check_circle(rep, H, "history.%s.poincare" % cls.lower(), n, "poincare", hk, out, seg_exp(A, src, n, "poincare"), both_degrees=outd)
+            if half:
+                with np.errstate(all="ignore"):
+                    out = obj.circle_parameters(model=M.HALFSPACE, degrees=False)
+                    outs = obj.sphere_parameters(M.HALFSPACE)
+                check_circle(rep, H, "history.%s.halfspace" % cls.lower(), n, "halfspace", hk, out, seg_exp(A, src, n, "halfspace"))
+                check_circle(rep, H, "history.%s.sphere_parameters.halfspace" % cls.lower(), n, "halfspace", hk, tuple(outs) + (np.zeros((L, 2)),),
+                             dict(seg_exp(A, src, n, "halfspace"), e1=None))
+            if cls == "Segment":
+                with np.errstate(all="ignore"):
+                    ik = np.asarray(obj.ideal_endpoint_coords(M.KLEIN), float)
+                rep.mask(ideal_pair_bad(ik, A["ku"][src], A["kv"][src], TOL), "history.segment.ideal_endpoints", hk,
+                         lambda i: dict(lib=fl(ik[i]), spec=[fl(A["ku"][src][i]), fl(A["kv"][src][i])]))
+            run.evaluations += L
+            run.traces += 1
+            run.actions["history: query, obj[k] = unit, query (%s)" % cls] = run.actions.get("history: query, obj[k] = unit, query (%s)" % cls, 0) + len(ks)
+        except Exception as ex:
+            rep("raised:history.%s" % cls.lower(), keys[base[0]], dict(error="%s: %s" % (type(ex).__name__, ex)))
+
+    # ---------- (c) other homogeneous representatives of the same end points
+    sub = np.array(sorted(rng.sample(range(K), min(K, 800))))
+    s1 = np.array([rng.choice(SCALES) for _ in sub])
+    s2 = np.array([rng.choice(SCALES) for _ in sub])
+    rk = ["%s:scaled by %g, %g" % (keys[i], a, b) for i, a, b in zip(sub, s1, s2)]
+    try:
+        with np.errstate(all="ignore"):
+            seg = H.Segment(A["P1"][sub] * s1[:, None], A["P2"][sub] * s2[:, None])
+            out = seg.circle_parameters(model=M.POINCARE, degrees=False)
+            ik = np.asarray(seg.ideal_endpoint_coords(M.KLEIN), float)
+        check_circle(rep, H, "rescaled.segment.poincare", n, "poincare", rk, out, seg_exp(A, sub, n, "poincare"))
+        rep.mask(ideal_pair_bad(ik, A["ku"][sub], A["kv"][sub], TOL), "rescaled.segment.ideal_endpoints", rk,
+                 lambda i: dict(lib=fl(ik[i]), spec=[fl(A["ku"][sub][i]), fl(A["kv"][sub][i])]))
+        hsub = np.nonzero(A["hs"][sub])[0]
+        if len(hsub):
+            with np.errstate(all="ignore"):
+                segh = H.Segment((A["P1"][sub] * s1[:, None])[hsub], (A["P2"][sub] * s2[:, None])[hsub])
+                out = segh.circle_parameters(model=M.HALFSPACE, degrees=False)
+            check_circle(rep, H, "rescaled.segment.halfspace", n, "halfspace", [rk[i] for i in hsub], out, seg_exp(A, sub[hsub], n, "halfspace"))
+        run.evaluations += len(sub)
+        run.actions["rescaled representatives"] = run.actions.get("rescaled representatives", 0) + len(sub)
+    except Exception as ex:
+        rep("raised:rescaled.segment", rk[0], dict(error="%s: %s" % (type(ex).__name__, ex)))
+
+
+# ----------------------------------------------------------------------------------------
 # horospheres
 # ----------------------------------------------------------------------------------------
 def horo_key(e):
@@ -578,6 +808,153 @@ def replay_horospheres(run, n, cases, rng, arcs):
                     halfspace_sphere=[mid["hc"], mid["hr"]]))
 
 
+def horo_variants(run, n, cases, rng, names, arcs):
+    """spellings of the model, item-assignment histories and other representatives for horospheres / arcs of horocycles"""
+    H = hyp()
+    M = H.Model
+    fam = "horoarc" if arcs else "horosphere"
+    rep = Reporter(run, fam)
+    keys = [horo_key(e) for e in cases]
+    pool = np.array([i for i, e in enumerate(cases) if e["hs"]])
+    if len(pool) < 4:
+        return
+    U = np.array([e["U"] for e in cases], float)
+    X = np.array([e["X"] for e in cases], float)
+    Y = np.array([e["Y"] for e in cases], float) if arcs else None
+    E = dict(poincare=dict(c=np.array([qv(e["pc"]) for e in cases]), r=np.array([q(e["pr"]) for e in cases]),
+                           x=np.array([qv(e["px"]) for e in cases]), u=np.array([qv(e["ku"]) for e in cases])),
+             halfspace=dict(c=np.array([qv(e["hc"]) if e["hs"] else np.full(n, np.nan) for e in cases]), r=np.array([q(e["hr"]) for e in cases]),
+                            x=np.array([qv(e["hx"]) for e in cases]), u=np.array([qv(e["hu"]) if e["hs"] else np.full(n, np.nan) for e in cases])))
+    if arcs:
+        E["poincare"].update(y=np.array([qv(e["py"]) for e in cases]), f=np.array([e["pfirst"] for e in cases]))
+        E["halfspace"].update(y=np.array([qv(e["hy"]) for e in cases]), f=np.array([e["hfirst"] for e in cases]))
+
+    def mk(i, su=1.0, sx=1.0, sy=1.0):
+        i = np.asarray(i)
+        sc = (lambda a, f: a * (f[:, None] if np.ndim(f) else f))
+        if arcs:
+            return H.HorosphereArc(sc(U[i], su), sc(X[i], sx), sc(Y[i], sy))
+        return H.Horosphere(sc(U[i], su), sc(X[i], sx))
+
+    def check(label, obj, src, hk):
+        for model, mm in (("poincare", M.POINCARE), ("halfspace", M.HALFSPACE)):
+            e = E[model]
+            with np.errstate(all="ignore"):
+                c, r = H.Horosphere.sphere_parameters(obj, mm)
+                c, r = np.asarray(c, float), np.asarray(r, float)
+            ec, er = e["c"][src], e["r"][src]
+            scale = np.maximum(1.0, er)
+            if model == "halfspace":
+                scale = np.maximum(scale, (1 + (e["u"][src] ** 2).sum(-1)) / 2)
+            if c.shape != ec.shape or r.shape != er.shape:
+                rep("%s.%s.shape" % (label, model), hk[0], dict(centre=c.shape, radius=r.shape))
+                continue
+            with np.errstate(all="ignore"):
+                rep.mask(~(np.abs(c - ec).max(-1) <= ITOL * scale), "%s.%s.centre" % (label, model), hk, lambda i: dict(lib=fl(c[i]), spec=fl(ec[i])))
+                rep.mask(~(np.abs(r - er) <= ITOL * scale), "%s.%s.radius" % (label, model), hk, lambda i: dict(lib=float(r[i]), spec=float(er[i])))
+            if arcs:
+                with np.errstate(all="ignore"):
+                    c2, r2, th = obj.circle_parameters(model=mm, degrees=False)
+                    c2, r2, th = np.asarray(c2, float), np.asarray(r2, float), np.asarray(th, float)
+                    f = e["f"][src]
+                    e1 = np.where((f == 1)[:, None], e["x"][src], e["y"][src])
+                    e2 = np.where((f == 1)[:, None], e["y"][src], e["x"][src])
+                    p0 = c2 + r2[:, None] * np.stack([np.cos(th[:, 0]), np.sin(th[:, 0])], -1)
+                    p1 = c2 + r2[:, None] * np.stack([np.cos(th[:, 1]), np.sin(th[:, 1])], -1)
+                    bad = ~((np.abs(p0 - e1).max(-1) <= ITOL * scale) & (np.abs(p1 - e2).max(-1) <= ITOL * scale))
+                rep.mask(bad, "%s.%s.arc_angles" % (label, model), hk, lambda i: dict(thetas=fl(th[i]), at_theta0=fl(p0[i]), at_theta1=fl(p1[i]),
+                                                                                      spec_start=fl(e1[i]), spec_end=fl(e2[i])))
+
+    # (a) spellings
+    sub = pool[:400]
+    try:
+        obj = mk(sub)
+        calls = []
+        for model in ("poincare", "halfspace"):
+            calls.append(("sphere_parameters", model, lambda o, m: H.Horosphere.sphere_parameters(o, m)))
+            calls.append(("ref_coords", model, lambda o, m: o.ref_coords(m)))
+            calls.append(("center_coords", model, lambda o, m: o.center_coords(m)))
+            if arcs:
+                calls.append(("circle_parameters", model, lambda o, m: o.circle_parameters(model=m, degrees=False)))
+                calls.append(("circle_parameters_degrees", model, lambda o, m: o.circle_parameters(m, True)))
+        run.evaluations += spelling_pass(rep, H, names, fam, "n=%d:%d objects" % (n, len(sub)), obj, calls)
+    except Exception as ex:
+        rep("raised:%s.spellings" % fam, keys[sub[0]], dict(error="%s: %s" % (type(ex).__name__, ex)))
+    # (b) history
+    L = min(len(pool), 200)
+    base = pool[np.array(sorted(rng.sample(range(len(pool)), L)))]
+    src = base.copy()
+    try:
+        with np.errstate(all="ignore"):
+            obj = mk(base)
+            for mm in (M.POINCARE, M.HALFSPACE):
+                H.Horosphere.sphere_parameters(obj, mm)
+                if arcs:
+                    obj.circle_parameters(model=mm)
+            ks = rng.sample(range(L), max(2, L // 6))
+            for k in ks:
+                j = int(pool[rng.randrange(len(pool))])
+                obj[k] = mk(j)
+                src[k] = j
+        hk = ["%s%s" % (keys[j], ":assigned_at=%d(was %s)" % (i, keys[base[i]]) if base[i] != j else "") for i, j in enumerate(src)]
+        check("history.%s" % fam, obj, src, hk)
+        run.evaluations += L
+        run.traces += 1
+        run.actions["history: query, obj[k] = unit, query (%s)" % fam] = len(ks)
+    except Exception as ex:
+        rep("raised:history.%s" % fam, keys[base[0]], dict(error="%s: %s" % (type(ex).__name__, ex)))
+    # (c) other representatives of the ideal centre, the reference point (and the second end point)
+    sub = pool[np.array(sorted(rng.sample(range(len(pool)), min(len(pool), 400))))]
+    su, sx, sy = (np.array([rng.choice(SCALES) for _ in sub]) for _ in range(3))
+    rk = ["%s:scaled by %g, %g%s" % (keys[i], a, b, ", %g" % c if arcs else "") for i, a, b, c in zip(sub, su, sx, sy)]
+    try:
+        with np.errstate(all="ignore"):
+            obj = mk(sub, su, sx, sy)
+        check("rescaled.%s" % fam, obj, sub, rk)
+        run.evaluations += len(sub)
+    except Exception as ex:
+        rep("raised:rescaled.%s" % fam, rk[0], dict(error="%s: %s" % (type(ex).__name__, ex)))
+
+
+def subspace_variants(run, n, cases, rng, names):
+    """spellings of the model and an item-assignment history for Subspace objects with the same number of basis points"""
+    H = hyp()
+    M = H.Model
+    rep = Reporter(run, "subspace")
+    groups = {}
+    for e in cases:
+        if e["hs"] and not e["straight"]:
+            groups.setdefault(e["k"] + 1, []).append(e)
+    for m, es in sorted(groups.items()):
+        if len(es) < 4:
+            continue
+        es = es[:200]
+        keys = ["n=%d:basis=%s" % (n, e["basis"]) for e in es]
+        data = np.array([e["basis"] for e in es], float)
+        try:
+            obj = H.Subspace(data.copy())
+            calls = [("sphere_parameters", model, lambda o, mm: o.sphere_parameters(mm)) for model in ("poincare", "halfspace")]
+            calls += [("ideal_basis_coords", model, lambda o, mm: o.ideal_basis_coords(mm)) for model in ("poincare", "halfspace", "klein")]
+            run.evaluations += spelling_pass(rep, H, names, "subspace", keys[0], obj, calls)
+            src = list(range(len(es)))
+            with np.errstate(all="ignore"):
+                obj.sphere_parameters(M.POINCARE)
+                obj.sphere_parameters(M.HALFSPACE)
+                for k in rng.sample(range(len(es)), max(2, len(es) // 6)):
+                    j = rng.randrange(len(es))
+                    obj[k] = H.Subspace(data[j].copy())
+                    src[k] = j
+                pc, pr = obj.sphere_parameters(M.POINCARE)
+                hc, hr = obj.sphere_parameters(M.HALFSPACE)
+            for i, j in enumerate(src):
+                key = keys[j] + (":assigned_at=%d" % i if i != j else "")
+                check_subspace(rep, "history.subspace", key, n, es[j], (np.asarray(pc)[i], np.asarray(pr)[i]), (np.asarray(hc)[i], np.asarray(hr)[i]), None)
+            run.evaluations += len(es)
+            run.traces += 1
+        except Exception as ex:
+            rep("raised:subspace.variants", keys[0], dict(error="%s: %s" % (type(ex).__name__, ex)))
+
+
 # ----------------------------------------------------------------------------------------
 # subspaces and hyperplanes
 # ----------------------------------------------------------------------------------------
@@ -718,6 +1095,7 @@ def run(run, replay=None):
                 dict(n=3, kinds=["segment", "horo", "subspace", "hyperplane"], B=5, coef=2, bx=5, bw=3, bs=5, thin=4),
                 dict(n=4, kinds=["segment", "horo", "subspace", "hyperplane"], B=3, coef=1, bx=3, bw=2, bs=2, thin=3)]
     cases = tlc_cases(run, plan, parallel=3, workers=3 if quick else 5)
+    names = cases["names"]
     count = {}
     for p in plan:
         n = p["n"]
@@ -725,12 +1103,16 @@ def run(run, replay=None):
         for k, v in fams.items():
             count["%s n=%d" % (k, n)] = len(v)
         replay_segments(run, n, fams["segment"], rng, "segment")
+        segment_variants(run, n, fams["segment"], rng, names)
         if "near" in fams:
             replay_segments(run, n, fams["near"], rng, "near_diameter")
         replay_horospheres(run, n, fams["horo"], rng, arcs=False)
+        horo_variants(run, n, fams["horo"], rng, names, arcs=False)
         if "horoarc" in fams:
             replay_horospheres(run, n, fams["horoarc"], rng, arcs=True)
+            horo_variants(run, n, fams["horoarc"], rng, names, arcs=True)
         if "subspace" in fams:
             replay_subspaces(run, n, fams["subspace"], rng)
+            subspace_variants(run, n, fams["subspace"], rng, names)
         replay_hyperplanes(run, n, fams["hyperplane"], rng)
     run.extra["cases_by_family"] = count
